@@ -503,29 +503,37 @@ func coord(o *opts) int {
 		// deterministic (then nothing it reports is trusted: exit 2), or the LIBRARY's
 		// behaviour depends on what the process did before (shards have different
 		// histories). Decide by running one mismatching case alone in two fresh processes.
-		var d [2]uint64
-		for i := range d {
-			out := filepath.Join(o.scratch, fmt.Sprintf("fresh-%d.json", i))
-			cmd := spawn(o, []string{"-only", mism[0]}, []int{4, 1}[i], out)
-			if err := cmd.Run(); err != nil {
-				return 2
-			}
-			var r ShardResult
-			b, _ := os.ReadFile(out)
-			if json.Unmarshal(b, &r) != nil {
-				return 2
-			}
-			d[i] = r.Digests[mism[0]]
+		// (up to 6 mismatching cases are examined, not just the first)
+		examine := mism
+		if len(examine) > 6 {
+			examine = examine[:6]
 		}
-		if d[0] != d[1] {
-			if o.prop != "C02" || len(sigs) == 0 {
-				fmt.Fprintf(os.Stderr, "SIMULATOR NONDETERMINISM: case %s of %s seed %d gives different event logs in two fresh processes\n", mism[0], o.prop, o.seed)
-				return 2
+		for _, mc := range examine {
+			var d [2]uint64
+			for i := range d {
+				out := filepath.Join(o.scratch, fmt.Sprintf("fresh-%d.json", i))
+				cmd := spawn(o, []string{"-only", mc}, []int{4, 1}[i], out)
+				if err := cmd.Run(); err != nil {
+					return 2
+				}
+				var r ShardResult
+				b, _ := os.ReadFile(out)
+				if json.Unmarshal(b, &r) != nil {
+					return 2
+				}
+				d[i] = r.Digests[mc]
 			}
-			// C02's subject is exactly this: if a violation found in this run reproduces
-			// from its replay file in a fresh process, the nondeterminism is the library's
-			// (e.g. an iteration the instrumenter could not take control of).
-			fmt.Printf("note: case %s gives different event logs even in two fresh processes; reporting only violations whose replay reproduces in a fresh process\n", mism[0])
+			if d[0] != d[1] {
+				if o.prop != "C02" || len(sigs) == 0 {
+					fmt.Fprintf(os.Stderr, "SIMULATOR NONDETERMINISM: case %s of %s seed %d gives different event logs in two fresh processes\n", mc, o.prop, o.seed)
+					return 2
+				}
+				// C02's subject is exactly this: if a violation found in this run reproduces
+				// from its replay file in a fresh process, the nondeterminism is the library's
+				// (e.g. an iteration the instrumenter could not take control of).
+				fmt.Printf("note: case %s gives different event logs even in two fresh processes; reporting only violations whose replay reproduces in a fresh process\n", mc)
+				break
+			}
 		}
 		historyDependent = true
 		fmt.Printf("note: %d case(s) gave different event logs in processes with different earlier activity (first: case %s), but identical logs in two fresh processes: the library's behaviour depends on earlier activity in the process\n", len(mism), mism[0])
@@ -572,9 +580,19 @@ func coord(o *opts) int {
 		reported++
 		exit = 1
 	}
-	if historyDependent && exit == 0 {
+	if historyDependent && exit == 0 && o.prop == "C02" {
+		// C02's own subject: the earlier-activity divergence was seen but its replay did not reproduce it
 		fmt.Fprintf(os.Stderr, "%s: event logs differ between processes (see note above) and no %s violation could be confirmed by fresh-process replay: no verdict\n", o.prop, o.prop)
 		return 2
+	}
+	if historyDependent {
+		// Other properties: what the library does internally (step counts, hence the seeded
+		// schedules and fault indices derived from them) may legitimately depend on what the
+		// process did before -- a process-wide cache, say. The simulator itself was shown to
+		// be deterministic (identical logs in two fresh processes for each examined case), every
+		// oracle was evaluated on every execution, and any violation has been re-confirmed from
+		// its replay file in a fresh process. Recorded in the evidence.
+		merged.Counters["history_dependent_event_logs"] = int64(len(mism))
 	}
 	wall := time.Since(start).Seconds()
 	writeEvidence(o, ck, sites, merged, reported, reportedList, redo, wall, total)
